@@ -45,7 +45,7 @@ def ruleToks (name : Bytes) (e : Expr) (semi : Tok) : List Tok :=
 /-- File level: the grammar text `name = <e printed with minimal parentheses> ;` parses to exactly
 the rule `name = e`, without error. -/
 theorem C31_print_parse (name : Bytes) (e : Expr) (hnf : NF e) (semi : Tok) (hsemi : semi.kind = T.SEMICOLON) :
-    parseFile (ruleToks name e semi) = some ⟨[⟨name, e⟩], []⟩ := by
+    parseFile (ruleToks name e semi) = some ⟨[⟨name, e⟩], [], 0⟩ := by
   have hstop : StopExpr [semi] := by
     simp +decide [StopExpr, StopTerm, hsemi]
   have hexpr := C31_print_parse_expr e hnf [semi] [] hstop
@@ -107,9 +107,9 @@ theorem sample_nf : NF sample := by
   simp +decide [sample, NF, NFP, NFPs, eA, eB, eC, eS]
 example : printE sample =
     [opTok T.MUL, tA, opTok T.INC, tB, opTok T.REM, tS, tC, opTok T.OR, tA] := by decide
-example : parseFile (ruleToks [100] sample semi) = some ⟨[⟨[100], sample⟩], []⟩ :=
+example : parseFile (ruleToks [100] sample semi) = some ⟨[⟨[100], sample⟩], [], 0⟩ :=
   C31_print_parse _ _ sample_nf semi rfl
-example : parseFile (ruleToks [100] sample semi) = some ⟨[⟨[100], sample⟩], []⟩ := by rfl
+example : parseFile (ruleToks [100] sample semi) = some ⟨[⟨[100], sample⟩], [], 0⟩ := by rfl
 /-- parentheses override: `*(a | b c)` needs them, and they are printed -/
 example : printE (.unary T.MUL (.choice [eA, .seq [eB, eC]])) =
     [opTok T.MUL, opTok T.LPAREN, tA, opTok T.OR, tB, tC, opTok T.RPAREN] := by decide
